@@ -2,6 +2,6 @@
    driver.  ExtrOcamlBasic only (bool, option, list, pairs, unit, sumbool map
    to OCaml's own types); Z / positive / N / nat stay the extracted inductives. *)
 From Coq Require Import Extraction ExtrOcamlBasic ZArith List.
-From Alliance Require Import Num KMap Types Monad Model Step IO.
+From Alliance Require Import Num KMap Types Monad Model Step IO Spec.
 Extraction Language OCaml.
-Extraction "model.ml" init_state step parse_op print_state parse_state run_trace.
+Extraction "model.ml" init_state step parse_op print_state parse_state run_trace check_step with_ctx.
